@@ -179,6 +179,8 @@ pub struct FoundViolation {
 
 thread_local! {
   static LAST_PANIC: RefCell<Option<String>> = const { RefCell::new(None) };
+  /// panics inside a checked case are captured, not printed
+  static QUIET: std::cell::Cell<bool> = const { std::cell::Cell::new(false) };
 }
 
 pub fn install_panic_hook() {
@@ -198,6 +200,9 @@ pub fn install_panic_hook() {
     } else {
       "<non-string panic>".to_string()
     };
+    if !QUIET.with(|q| q.get()) {
+      eprintln!("panic at {loc}: {msg}");
+    }
     LAST_PANIC.with(|p| *p.borrow_mut() = Some(format!("{loc}: {msg}")));
   }));
 }
@@ -209,9 +214,11 @@ pub fn run_check<C>(
   tier: Tier,
 ) -> Result<Outcome, String> {
   LAST_PANIC.with(|p| *p.borrow_mut() = None);
+  QUIET.with(|q| q.set(true));
   let r = std::panic::catch_unwind(std::panic::AssertUnwindSafe(|| {
     check(case, tier)
   }));
+  QUIET.with(|q| q.set(false));
   match r {
     Ok(o) => Ok(o),
     Err(_) => Err(
